@@ -240,7 +240,7 @@ pub fn miri_slice(r: &mut Report, n: usize, shard: usize) -> usize {
 
 pub fn run(ctx: &Ctx) -> i32 {
     let mut report = ctx.report("C16", "exploration");
-    report.rule = "exhaustive: (style, length, trailing-data) for every representable length of BER-TLV/APDU (0..65535), LLVAR (0..99), LLLVAR (0..999), Fixed<1..17> (payload 0..N) with trailing data of 0/1/300 bytes (and, for the smallest, the largest and a stride of lengths, of 65533 / 65537 bytes) and, for the two-byte-length styles, trailing data of exactly len-8 .. len+8 and byte-swapped-len bytes, and trailing data that begins with one / two copies of the prefix itself; plus every byte string of length 0..3 through the four prefix parsers (styles alternating per input); plus the styles interleaved: the same / the neighbouring length through all 24 orderings of the four styles back to back on one thread. A case is non-trivial when the statement claims a definite outcome for it (all round-trip cases; parser inputs whose prefix bytes are well-formed for the style). Distinct = distinct (style,length,trailing) / (parser,input).".into();
+    report.rule = "exhaustive: (style, length, trailing-data) for every representable length of BER-TLV/APDU (0..65535), LLVAR (0..99), LLLVAR (0..999), Fixed<1..17> (payload 0..N) with trailing data of 0/1/300 bytes (and, for the smallest, the largest and a stride of lengths, of 65533 / 65537 bytes) and, for the two-byte-length styles, trailing data of exactly len-8 .. len+8 and byte-swapped-len bytes, and trailing data that begins with one / two copies of the prefix itself; for LLVAR / LLLVAR trailing data that begins with one more digit byte F0..F9 and is exactly (and one less / one more than) as long as the header extended by that digit would announce; plus every byte string of length 0..3 through the four prefix parsers (styles alternating per input); plus the styles interleaved: the same / the neighbouring length through all 24 orderings of the four styles back to back on one thread. A case is non-trivial when the statement claims a definite outcome for it (all round-trip cases; parser inputs whose prefix bytes are well-formed for the style). Distinct = distinct (style,length,trailing) / (parser,input).".into();
     report.exhaustive = Some(true);
     report.assumptions = vec![
         "independent shortest-form formulas and prefix parsers of refcodec::codec are the oracle".into(),
@@ -275,6 +275,18 @@ pub fn run(ctx: &Ctx) -> i32 {
                     check_roundtrip(r, st, n, &t2);
                     let t3 = vec![pre[0]; n.min(700) + pre.len() + 1];
                     check_roundtrip(r, st, n, &t3);
+                }
+                // digit-count styles: the data behind the header begins with one more digit byte F0..F9 and is exactly as
+                // long as the header extended by that digit would announce (10 n + d bytes behind the longer header,
+                // and one more / one less) - the header still has its own number of digits
+                if matches!(st, Style::Ll | Style::Lll) {
+                    for d in 0..=9usize {
+                        for behind in [(10 * n + d).saturating_sub(1), 10 * n + d, 10 * n + d + 1] {
+                            let mut t = vec![0xf0 | d as u8];
+                            t.extend(&big[..behind]);
+                            check_roundtrip(r, st, n, &t);
+                        }
+                    }
                 }
                 // trailing data whose length is related to the encoded length itself (exactly the announced
                 // payload, one less, one more, and the byte-swapped length): quick on a stride, thorough on all
